@@ -58,3 +58,11 @@ Definition acc (t : nat) (loc kind seen wrote : Z) (ok : bool) : list Z :=
   [1; Z.of_nat t; loc; kind; seen; wrote; if ok then 1 else 0].
 Definition ret (t : nat) (code a b : Z) : list Z := [2; Z.of_nat t; code; a; b].
 Definition skip (t : nat) : list Z := [0; Z.of_nat t].
+
+Lemma NoDup_app_one {A} (l : list A) x : NoDup l -> ~ In x l -> NoDup (l ++ [x]).
+Proof.
+  induction l as [|a l IH]; intros Hn Hx; cbn; [constructor; [intros []|constructor]|].
+  inversion Hn; subst. constructor.
+  - intros Hin. apply in_app_or in Hin. destruct Hin as [Hin|[Hin|[]]]; [contradiction|]. apply Hx. now left.
+  - apply IH; [assumption|]. intros Hin. apply Hx. now right.
+Qed.
